@@ -1,10 +1,178 @@
 import PhysisModel.Base.Proto
+import PhysisModel.Base.HexFast
+import PhysisModel.Model.Sha1
+import PhysisModel.Model.Fiin
+import PhysisModel.Model.PatchList
+import PhysisModel.Spec.Sha1
+import PhysisModel.Spec.Fiin
+import PhysisModel.Spec.PatchList
+/-!
+C10 driver.  Case grammar (strings are hex of their UTF-8 bytes, `-` = empty):
+
+* `sha1 <hex>`                         digest of the bytes (through `FileInfo::new` on one file)
+* `new <files>` / `newwrite <files>`   `files` = `-` | `f;f;…`, `f` = `<path>:<content>`
+* `write <entries>` / `parse <entries>` / `rt <entries>`
+                                       `entries` = `-` | `e,e,…`, `e` = `<i32 size>:<name>:<digest>`
+* `plwrite|plparse|plrt <boot|game> <id> <content-location> <requested-version> <u64> <patches>`
+                                       `patches` = `-` | `p;p;…`,
+                                       `p` = `<len>,<size>,<a>,<b>,<hbs>,<version>,<url>,<hashes>`,
+                                       `hashes` = `_` | `h+h+…`
+-/
 namespace Physis.Driver.C10
 open Physis Physis.Proto
+open Physis.Spec.Fiin (Entry)
+open Physis.Spec.PatchList (Kind PatchEntry PatchList)
+
+def showEntries (es : List Entry) : String :=
+  if es.isEmpty then "-" else
+  ",".intercalate (es.map fun e =>
+    toString e.fileSize.toInt32.toInt ++ ":" ++ Bytes.toHex e.fileName ++ ":" ++ Bytes.toHex e.sha1)
+
+def showRes : Fiin.Res (List Entry) → String
+  | .ok es => showEntries es
+  | .none => "none"
+  | .panic => "panic"
+
+def parseEntry (s : String) : Option Entry :=
+  match s.splitOn ":" with
+  | [sz, name, sha] => do
+    let sz ← sz.toInt?
+    if sz < -(2 ^ 31 : Int) ∨ sz ≥ 2 ^ 31 then none
+    let name ← Bytes.ofHex name
+    let sha ← Bytes.ofHex sha
+    pure ⟨UInt32.ofInt sz, name, sha⟩
+  | _ => none
+
+def parseEntries (s : String) : Option (List Entry) :=
+  if s == "-" then some [] else (s.splitOn ",").mapM parseEntry
+
+def parseFile (s : String) : Option (Bytes × Bytes) :=
+  match s.splitOn ":" with
+  | [p, c] => do
+    let p ← Bytes.ofHex p
+    let c ← Bytes.ofHexBig c
+    pure (p, c)
+  | _ => none
+
+def parseFiles (s : String) : Option (List (Bytes × Bytes)) :=
+  if s == "-" then some [] else (s.splitOn ";").mapM parseFile
+
+/-- the table `FileInfo::new` must produce according to the property: base name, exact size,
+SHA-1 (FIPS 180-4) of every file -/
+def specNew (files : List (Bytes × Bytes)) : List Entry :=
+  files.map fun (p, c) => ⟨UInt32.ofNat c.length, Spec.Fiin.baseName p, Spec.Sha1.sha1 c⟩
+
+def parseHashes (s : String) : Option (List Bytes) :=
+  if s == "_" then some [] else (s.splitOn "+").mapM Bytes.ofHex
+
+def parsePatch (s : String) : Option PatchEntry :=
+  match s.splitOn "," with
+  | [len, size, a, b, hbs, ver, url, hs] => do
+    let len ← len.toInt?
+    let size ← size.toInt?
+    let a ← a.toInt?
+    let b ← b.toInt?
+    let hbs ← hbs.toInt?
+    let ver ← Bytes.ofHex ver
+    let url ← Bytes.ofHex url
+    let hs ← parseHashes hs
+    pure ⟨url, ver, hbs, len, size, hs, a, b⟩
+  | _ => none
+
+def parsePatches (s : String) : Option (List PatchEntry) :=
+  if s == "-" then some [] else (s.splitOn ";").mapM parsePatch
+
+def showHashes (hs : List Bytes) : String :=
+  if hs.isEmpty then "_" else "+".intercalate (hs.map Bytes.toHex)
+
+def showPatch (p : PatchEntry) : String :=
+  ",".intercalate [toString p.length, toString p.sizeOnDisk, toString p.unknownA, toString p.unknownB,
+    toString p.hashBlockSize, Bytes.toHex p.version, Bytes.toHex p.url, showHashes p.hashes]
+
+def showPatchList (pl : PatchList) : String :=
+  "len=" ++ toString pl.patchLength ++ " id=" ++ Bytes.toHex pl.id ++ " cl=" ++ Bytes.toHex pl.contentLocation ++
+  " rv=" ++ Bytes.toHex pl.requestedVersion ++ " p=" ++
+  (if pl.patches.isEmpty then "-" else ";".intercalate (pl.patches.map showPatch))
+
+def parseKind : String → Option Kind
+  | "boot" => some .boot
+  | "game" => some .game
+  | _ => none
+
+def parsePl (kind id cl rv n ps : String) : Option (Kind × PatchList) := do
+  let kind ← parseKind kind
+  let id ← Bytes.ofHex id
+  let cl ← Bytes.ofHex cl
+  let rv ← Bytes.ofHex rv
+  let n ← n.toNat?
+  let ps ← parsePatches ps
+  pure (kind, ⟨id, n, cl, rv, ps⟩)
+
+def optHex : Option Bytes → String
+  | some b => Bytes.toHex b
+  | none => "panic"
+
+def optPl : Option PatchList → String
+  | some pl => showPatchList pl
+  | none => "panic"
+
+/-- tag for trivial cases (nothing to hash / no entries / no patches) -/
+def trivIf (b : Bool) : List String := if b then ["triv"] else []
 
 /-- one case line in, one answer line out (see `Base/Proto.lean`) -/
 def handle (line : String) : String :=
   match fields line with
+  | ["sha1", h] =>
+    match Bytes.ofHexBig h with
+    | some bs => answer "=" (Bytes.toHex (Spec.Sha1.sha1 bs)) [] (some (Bytes.toHex (Sha1.sha1 bs)))
+    | none => bad
+  | ["new", fs] =>
+    match parseFiles fs with
+    | some files =>
+      answer "=" (showEntries (specNew files)) (trivIf files.isEmpty)
+        (some (match Fiin.new files with | some es => showEntries es | none => "none"))
+    | none => bad
+  | ["newwrite", fs] =>
+    match parseFiles fs with
+    | some files =>
+      answer "=" (Bytes.toHex (Spec.Fiin.encode (specNew files))) []
+        (some (match Fiin.new files with | some es => Bytes.toHex (Fiin.write es) | none => "none"))
+    | none => bad
+  | ["write", es] =>
+    match parseEntries es with
+    | some es => answer "=" (Bytes.toHex (Spec.Fiin.encode es)) [] (some (Bytes.toHex (Fiin.write es)))
+    | none => bad
+  | ["parse", es] =>
+    match parseEntries es with
+    | some es =>
+      let file := Spec.Fiin.encode es
+      answer ("parse " ++ Bytes.toHex file) (showEntries (es.map Spec.Fiin.normEntry)) (trivIf es.isEmpty)
+        (some (showRes (Fiin.parse file)))
+    | none => bad
+  | ["rt", es] =>
+    match parseEntries es with
+    | some es =>
+      answer "=" (showEntries (es.map Spec.Fiin.normEntry)) (trivIf es.isEmpty)
+        (some (showRes (Fiin.parse (Fiin.write es))))
+    | none => bad
+  | ["plwrite", kind, id, cl, rv, n, ps] =>
+    match parsePl kind id cl rv n ps with
+    | some (kind, pl) =>
+      answer "=" (Bytes.toHex (Spec.PatchList.encode kind pl)) [] (some (optHex (PatchList.toString kind pl)))
+    | none => bad
+  | ["plparse", kind, id, cl, rv, n, ps] =>
+    match parsePl kind id cl rv n ps with
+    | some (k, pl) =>
+      let text := Spec.PatchList.encode k pl
+      answer ("plparse " ++ kind ++ " " ++ Bytes.toHex text) (showPatchList (Spec.PatchList.decoded k pl)) []
+        (some (optPl (PatchList.fromString k text)))
+    | none => bad
+  | ["plrt", kind, id, cl, rv, n, ps] =>
+    match parsePl kind id cl rv n ps with
+    | some (kind, pl) =>
+      answer "=" (showPatchList (Spec.PatchList.decoded kind pl)) []
+        (some (optPl ((PatchList.toString kind pl).bind (PatchList.fromString kind))))
+    | none => bad
   | _ => bad
 
 end Physis.Driver.C10
